@@ -17,6 +17,35 @@ SP = {"lower": "ab", "upper": "AB", "mixed": "Ab", "qlower": '"ab"', "qupper": '
 FOLD = {"lower": "AB", "upper": "AB", "mixed": "AB", "qupper": "AB", "qlower": "ab", "qmixed": "Ab", "fnlower": "AB", "fnmixed": "AB"}
 
 
+# the letters the abstract name "ab" is written with: identifiers need not be ASCII, and the fold rule is about letters, not
+# about [a-z] (the driver picks an alphabet per behaviour; what is observed is mapped back to a / b for the judge)
+ALPHABETS = {"ascii": "ab", "cyrillic": "\u0436\u0438"}
+_BACK = {}
+
+
+def set_alphabet(name: str):
+    lo = ALPHABETS[name]
+    lower, upper, mixed = lo, lo.upper(), lo[0].upper() + lo[1:]
+    SP.update({"lower": lower, "upper": upper, "mixed": mixed, "qlower": f'"{lower}"', "qupper": f'"{upper}"', "qmixed": f'"{mixed}"',
+               "fnlower": f"identifier('{lower}')", "fnmixed": f"identifier('{mixed}')"})
+    _BACK.clear()
+    if name != "ascii":
+        _BACK.update({ord(lo[0]): "a", ord(lo[1]): "b", ord(lo[0].upper()): "A", ord(lo[1].upper()): "B"})
+
+
+def back(v):
+    """observed text with the behaviour's alphabet mapped back to a / b"""
+    if not _BACK:
+        return v
+    if isinstance(v, str):
+        return v.translate(_BACK)
+    if isinstance(v, list):
+        return [back(x) for x in v]
+    if isinstance(v, dict):
+        return {k: back(x) for k, x in v.items()}
+    return v
+
+
 def keep(sp: str) -> str:
     """an identifier as spelled by the operation: its letter case is not touched by kwcase (IDENTIFIER('..') is a keyword + a literal)"""
     return sp if sp.startswith("identifier(") else f"«{sp}»"
@@ -122,6 +151,8 @@ class C02(Prop):
 
         global _N
         _N += 1
+        alpha = rng.choice(("ascii", "ascii", "cyrillic"))
+        set_alphabet(alpha)
         fs = fakesnow.instance.FakeSnow()
         conn = fs.connect("DB1", "S1")
         cur = conn.cursor()
@@ -163,8 +194,12 @@ class C02(Prop):
                     obs = {"res": "ok", "names": sorted({r[0] for r in rows})}
             except Exception as e:
                 obs = {"res": "err", "names": []}
-            ev.append({"op": op, "obs": obs})
+            obs = back(obs)
+            if isinstance(obs.get("names"), list):
+                obs["names"] = sorted(obs["names"])
+            ev.append({"op": dict(op, alphabet=alpha), "obs": obs})
         fs.duck_conn.close()
+        set_alphabet("ascii")
         return ev
 
     def run(self, conn, sql, kw, rng, dict_cursor=False):
